@@ -40,13 +40,14 @@ def run(F, rep, tier):
     for name, b in F.bodies.items():
         if not name.startswith("dmntk_recognizer::canvas::Canvas::"):
             continue
-        n += 1
+        if b["kind"] != "closure":
+            n += 1
         bad = restructures(b)
         if bad:
             rep.violation(rid, name, "%s restructures the canvas grid (%s): the bounds argument of every grid access relies on the grid being fixed after scan()" % (name, sorted(set(bad))), b["file"])
         else:
             rep.ok(rid, name, "no push/insert/remove on the grid")
-    rep.floor(rid, "Canvas methods", n, 40)
+    rep.floor(rid, "Canvas methods (closures not counted)", n, 25)
     scan = F.bodies.get("dmntk_recognizer::canvas::scan")
     if scan is None or not restructures(scan):
         rep.missing_anchor(rid, "positive control: scan() must be recognised as building the grid with Vec::push")
